@@ -83,7 +83,7 @@ namespace sycl {
   } }
 
   // sycl::atomic_ref (SYCL 2020, 4.15.3) for arithmetic types: the operators OCCA's @atomic lowering can
-  // produce.  Work-items are only interleaved at barriers, so plain read-modify-write is atomic here.
+  // produce (real atomic operations, so that the race pass sees them as atomic accesses).
   enum class memory_order { relaxed, acquire, release, acq_rel, seq_cst };
   enum class memory_scope { work_item, sub_group, work_group, device, system };
 
@@ -93,15 +93,15 @@ namespace sycl {
     T &r;
   public:
     explicit atomic_ref(T &r_) : r(r_) {}
-    T load() const { return r; }
-    void store(T v) const { r = v; }
-    T operator = (T v) const { r = v; return v; }
-    operator T () const { return r; }
-    T fetch_add(T v) const { const T o = r; r = (T) (o + v); return o; }
-    T fetch_sub(T v) const { const T o = r; r = (T) (o - v); return o; }
-    T fetch_and(T v) const { const T o = r; r = (T) (o & v); return o; }
-    T fetch_or(T v) const  { const T o = r; r = (T) (o | v); return o; }
-    T fetch_xor(T v) const { const T o = r; r = (T) (o ^ v); return o; }
+    T load() const { T v; __atomic_load(&r, &v, __ATOMIC_RELAXED); return v; }
+    void store(T v) const { __atomic_store(&r, &v, __ATOMIC_RELAXED); }
+    T operator = (T v) const { store(v); return v; }
+    operator T () const { return load(); }
+    T fetch_add(T v) const { return gpuemu::atomicRmw(&r, [=](T o) { return (T) (o + v); }); }
+    T fetch_sub(T v) const { return gpuemu::atomicRmw(&r, [=](T o) { return (T) (o - v); }); }
+    T fetch_and(T v) const { return gpuemu::atomicRmw(&r, [=](T o) { return (T) (o & v); }); }
+    T fetch_or(T v) const  { return gpuemu::atomicRmw(&r, [=](T o) { return (T) (o | v); }); }
+    T fetch_xor(T v) const { return gpuemu::atomicRmw(&r, [=](T o) { return (T) (o ^ v); }); }
     T operator += (T v) const { return (T) (fetch_add(v) + v); }
     T operator -= (T v) const { return (T) (fetch_sub(v) - v); }
     T operator &= (T v) const { return (T) (fetch_and(v) & v); }
